@@ -1106,6 +1106,8 @@ def keyword_frames(big):
             for c in low:
                 cm += [47, 42, 42, 47] if c == 32 else [c]
             out.append(S("1 ") + cm + S(" x"))
+            for j in (95, 46, 45, 9):   # ... or joined by '_', '.', '-', a tab
+                out.append(S("1 ") + [j if c == 32 else c for c in low] + S(" 1"))
     return out
 
 
